@@ -5,9 +5,10 @@ CONSTANTS
   BufSize = 4
   CpInterval = 2
   MaxAdv = 2
-  Atomic = FALSE
+  Atomic = TRUE
   Eager = TRUE
   Emit = TRUE
-INVARIANTS SafetyAsWritten EmitInv
+  AdvKinds = {"flip", "dup", "drop", "swap", "splice", "replaycp", "delaycps"}
+INVARIANTS SafetyFull EmitInv
 CHECK_DEADLOCK FALSE
 ACTION_CONSTRAINT BroadcastFirst
